@@ -14,7 +14,7 @@ PROJECT = os.path.join(VERIF, 'lean-cpp')
 MODULE = 'XrlCpp.Props.C18'
 NAMESPACE = 'XrlCpp.C18'
 PROPS_FILE = os.path.join(PROJECT, 'XrlCpp', 'Props', 'C18.lean')
-FINDINGS_FILE = os.path.join(VERIF, 'notes', 'proposed_findings', 'C18.txt')
+FINDINGS_FILE = None
 LEAK_KEY = 'cplusplus/xraylib++.h:_process_error throws without releasing the xrl_error'
 NONVACUITY = ['example : headerPE.Conforms', 'example : Reachable', 'example : Gen.cProtos.length']
 TRUSTED = [
